@@ -118,6 +118,13 @@ class ShellScriptBinaryIOHelper(BinaryIO):
             return None
 
     @staticmethod
+    def _quote_format(escaped: str) -> str:
+        # printf would parse a format starting with a dash as an option.
+        if escaped.startswith("-"):
+            escaped = "\\055" + escaped[1:]
+        return f"'{escaped}'"
+
+    @staticmethod
     def write_to_shellscript(shellscript_out: TextIO, data: bytes, comment: str = ""):
         # First split `data` into chunks such that each chunk is either a potential
         # base64-encoded string or definitely not.
@@ -131,11 +138,12 @@ class ShellScriptBinaryIOHelper(BinaryIO):
             base64 = ShellScriptBinaryIOHelper._try_base64(chunk)
             if base64 is not None:
                 formatstring += "%s"
-                params.append(f"\"$(printf '{base64}' | base64 -w0)\"")
+                quoted = ShellScriptBinaryIOHelper._quote_format(base64)
+                params.append(f"\"$(printf {quoted} | base64 -w0)\"")
             else:
                 formatstring += ShellScriptBinaryIOHelper._escape_bytes(chunk)
         # The final shell script command.
-        command = f"printf '{formatstring}'"
+        command = f"printf {ShellScriptBinaryIOHelper._quote_format(formatstring)}"
         if params:
             command += f" {' '.join(params)}"
         if not comment:
